@@ -10,7 +10,7 @@ Each directory holds a change to elastic/rally written by a fresh sub-agent that
 (nothing from /verif): `patch.diff`, the agent's demonstration `demo_test.py` (fails with the change, passes without) and `meta.json`.
 Every change was confirmed by `tools/seed_verify.py`: the demonstration fails on a patched copy of /repo and passes on a clean one, the repository's
 test suite shows no failure outside the baseline's always-fail/flaky set, then the registered quick check of the property ran with `--repo <patched copy>`.
-None of these patches is applied to /repo. `<ID>` = round 1, `<ID>-r2` = round 2, `<ID>-r3` … `<ID>-r8` = rounds 3 to 8 (the agent was told what the earlier rounds had tried and asked for a different clause,
+None of these patches is applied to /repo. `<ID>` = round 1, `<ID>-r2` = round 2, `<ID>-r3` … `<ID>-r9` = rounds 3 to 9 (the agent was told what the earlier rounds had tried and asked for a different clause,
 code site and trigger).
 
 | seed | change | needs to manifest | quick tier now | signatures | history |
@@ -39,7 +39,7 @@ def main():
         for r in rows:
             f.write("| " + " | ".join(str(x) for x in r) + " |\n")
         f.write(f"\n{len(rows)} confirmed changes; {len(rows) - missed} were caught by the checks as they stood when the change arrived, {missed} were missed at first and led to the "
-                "strengthening named in the history column, after which all are caught by the quick tier - by the check of their own property except C03-r6 (caught by C14), "
+                "strengthening named in the history column, after which all are caught by the quick tier - by the check of their own property (C04-r9 was caught by C07 before C04 caught it) except C03-r6 (caught by C14), "
                 "C07-r5 (C18) and C12-r7 (C13), whose code site belongs to the other property.\n")
     print(len(rows), "rows,", missed, "missed at first")
 
